@@ -20,6 +20,7 @@ func checkC02(c *Ctx) {
 	c02CommentNewline(c)
 	c02AsHCL(c)
 	c14BufferSame(c, "bom.buffer") // independence of a leading byte-order mark
+	c01ReaderEscapes(c)            // quoted labels are decoded with the escape table of the specification
 	c.NotCovered("acceptance of every legal rendering: that no error diagnostic is produced for a text that follows the grammar is a property of the token stream against the grammar, not of a code shape; only the peeker's layout filter (comments, newlines) is decided")
 	c.NotCovered("the Ragel scanner (scan_tokens.rl): tokenisation of CRLF, BOM, comments and heredocs is trusted")
 	c.Trust("only line comments (# and //) end with a newline byte: guaranteed by scan_tokens.rl, not re-derived")
